@@ -504,6 +504,11 @@ func (c *resultCodec) Decode(source io.Reader, version primitive.ProtocolVersion
 		if rowsCount, err = primitive.ReadInt(source); err != nil {
 			return nil, fmt.Errorf("cannot read RESULT Rows data length: %w", err)
 		}
+		if rowsCount < 0 {
+			return nil, fmt.Errorf("invalid RESULT Rows data length: %v", rowsCount)
+		} else if rows.Metadata.ColumnCount < 0 {
+			return nil, fmt.Errorf("invalid RESULT Rows metadata column count: %v", rows.Metadata.ColumnCount)
+		}
 		rows.Data = make(RowSet, rowsCount)
 		for i := 0; i < int(rowsCount); i++ {
 			rows.Data[i] = make(Row, rows.Metadata.ColumnCount)
